@@ -48,6 +48,22 @@ EXOTIC_ITEMS = [
 FUZZ_POOL = ['"', "'", "\\", "(", ")", ",", "=", "é", "€", "\U0001F600", " ", "a", "#", "<", ">", "{", "}", "\n", "\t", "\u0000"[:0] or "~"]
 
 
+def broken_nonascii_files():
+    """files that do not parse, with multi-byte text before / at / after the error position on the same line and on
+    other lines (diagnostics that slice the line by column must not split a character)"""
+    texts = ["日本語日本語", "é", "ß€", "\U0001F600\U0001F600", "aé", "ééééééééééééééééééééééééééééééééééééééééé", "x\u0301y"]
+    out = {}
+    k = 0
+    for tx in texts:
+        for form in ('const S: &str = "%s" oops;\n', 'pub fn f() { let _x = "%s" "%s"; }\n', '// %s\npub struct S { a: }\n',
+                     'pub fn %s( {\n', '/* %s */ #[tauri::command] pub fn g(a: u8, , b: u8) {}\n', 'pub const C: &str = "%s;\n',
+                     "pub fn h() { let c = '%s' + ; }\n", 'pub enum E { A = "%s", B( }\n'):
+            k += 1
+            body = form.replace("%s", tx)
+            out["src/broken_na_%d.rs" % k] = "#[tauri::command]\npub fn hidden_%d() {}\n%s" % (k, body)
+    return out
+
+
 def rust_lit(s):
     return '"' + s.replace("\\", "\\\\").replace('"', '\\"').replace("\n", "\\n").replace("\t", "\\t") + '"'
 
@@ -141,13 +157,16 @@ def run(tier, seed):
             st.proj_rel + "/src/empty.rs": "",
             st.proj_rel + "/src/only_comment.rs": "// nothing here\n/* block */\n",
         }
+        if vi == 0:
+            for rel, text in broken_nonascii_files().items():
+                bad[st.proj_rel + "/" + rel] = text
         root = os.path.join(d, "iso%d-bad" % vi)
         rustgen.write_project(root, dict(files, **bad))
         r = runner.cli(["generate", "-c", "typegen.json"], root)
         texts = runner.read_outputs(os.path.join(root, st.out_rel))
         events.append({"event": "RunStart", "driver": "cli", "forced": False})
         events.append({"event": "RunEnd", "status": r.status, "upToDate": False, "exit": r.rc, "injectedKill": False, "wroteNothing": False})
-        info.append((len(events), "isolation%d" % vi, "cfg", r.status, r.err[-300:], "project + 5 unparsable/empty files"))
+        info.append((len(events), "isolation%d" % vi, "cfg", r.status, r.err[-300:], "project + unparsable (ASCII and non-ASCII) and empty files"))
         events.append({"event": "Outputs", "case": "isolation%d" % vi, "relation": "identical", "what": "unparsable files added",
                        "a": base or {"_none": ["-"]}, "b": c13.digests(texts) or {"_none": ["-"]}})
         iso += 1
